@@ -69,21 +69,36 @@ def C10_statement (cfg : Cfg) : Prop :=
 its normal flow when answered (in the late-activation order the harness may still have to execute its second
 statement before its forwarder exists) -/
 theorem normal_flow_unstoppable (cfg : Cfg) (kinds : List Bool) (s : St) (hr : Reach cfg kinds s) (h : s.req = .pending) :
-    ∃ tr s', run cfg s (.answer :: .respond :: tr ++ [.forward, .hostTake]) = some s' ∧ s'.normal = s.normal + 1 := by
+    ∃ tr s', run cfg s (.answer :: .respond :: tr ++ [.hostTake]) = some s' ∧ s'.normal = s.normal + 1 := by
   have g := reach_ginv hr
   have h3 := g.stage3 (by rw [h]; simp [Req.rank])
   have h2 := g.stage2
+  have hcl : s.cleared = false := by
+    cases hc : s.cleared with
+    | false => rfl
+    | true => have := (g.clear hc).1; rw [h] at this; simp [Req.rank] at this
   by_cases hst : s.hStage = 2
-  · refine ⟨[], { s with req := .done, clearPending := true, normal := s.normal + 1 }, ?_, rfl⟩
-    simp [run, step, h, hst]
+  · cases hrf : cfg.resetFirst with
+    | true =>
+      refine ⟨[.clear, .forward], ({ s with req := .done, cleared := true, hActive := false, normal := s.normal + 1 } : St), ?_, rfl⟩
+      simp [run, step, h, hst, hrf, hcl]
+    | false =>
+      refine ⟨[.forward], ({ s with req := .done, normal := s.normal + 1 } : St), ?_, rfl⟩
+      simp [run, step, h, hst, hrf]
   · have he : cfg.early = false := by
       cases he : cfg.early with
       | false => rfl
       | true => rw [he] at h3; simp at h3; exact absurd h3 hst
     have h1 : s.hStage = 1 := by rw [he] at h3; simp at h3; omega
-    refine ⟨[.harnessActive],
-      ({ s with req := .done, clearPending := true, normal := s.normal + 1, hStage := 2, hActive := true } : St), ?_, rfl⟩
-    simp [run, step, h, h1, he]
+    cases hrf : cfg.resetFirst with
+    | true =>
+      refine ⟨[.harnessActive, .clear, .forward],
+        ({ s with req := .done, cleared := true, normal := s.normal + 1, hStage := 2, hActive := false } : St), ?_, rfl⟩
+      simp [run, step, h, h1, he, hrf, hcl]
+    | false =>
+      refine ⟨[.harnessActive, .forward],
+        ({ s with req := .done, normal := s.normal + 1, hStage := 2, hActive := true } : St), ?_, rfl⟩
+      simp [run, step, h, h1, he, hrf]
 
 /-- for every schedule: once the host was answered, at quiescence the normal flow has continued -/
 theorem answered_then_normal (cfg : Cfg) (kinds : List Bool) (s : St) (hr : Reach cfg kinds s) (hq : quiet cfg s = true)
@@ -92,19 +107,24 @@ theorem answered_then_normal (cfg : Cfg) (kinds : List Bool) (s : St) (hr : Reac
   have hn := g.normal
   obtain ⟨_, q2, q3⟩ := quiet_req cfg s hq
   cases hreq : s.req <;> simp_all [Req.rank]
-  -- responded: the forwarder exists (both activation statements ran) or the second one is still enabled
+  -- responded: the relay exists (both activation statements ran) or the second one is still enabled
   exfalso
   have hf := quiet_no_internal cfg s hq .forward rfl
+  have hc := quiet_no_internal cfg s hq .clear rfl
   have h1 := quiet_no_internal cfg s hq .harnessActive rfl
   have h3 := g.stage3 (by rw [hreq]; simp [Req.rank])
   have h2 := g.stage2
-  simp only [step, hreq] at hf h1
+  simp only [step, hreq] at hf hc h1
   cases he : cfg.early with
-  | true => rw [he] at h3; simp at h3; simp [h3] at hf
+  | true =>
+    rw [he] at h3; simp at h3
+    cases hrf : cfg.resetFirst <;> cases hcl : s.cleared <;> simp [h3, hrf, hcl] at hf hc
   | false =>
     rw [he] at h3; simp at h3
     have : s.hStage = 1 ∨ s.hStage = 2 := by omega
-    rcases this with h | h <;> simp [h, he] at hf h1
+    rcases this with h | h
+    · simp [h, he] at h1
+    · cases hrf : cfg.resetFirst <;> cases hcl : s.cleared <;> simp [h, hrf, hcl] at hf hc
 
 /-- the answer relay's two statements (`active := 0`, `out <- rsp`), in the order of the source -/
 def handover (cfg : Cfg) : List Label :=
@@ -154,7 +174,7 @@ theorem C10_counterexample_interrupting (cfg : Cfg) : ¬ boundary_interrupting c
       | none => simp [hr2] at h2
       | some s2 =>
         simp only [hr2, Bool.and_eq_true, beq_iff_eq] at h2
-        have := (h [true] s1 0 l (reach_of_run h1) hreq hl0 hl.1.1 hl.1.2 hl.2 d7post cfg s2 hr2).2.2
+        have := (h [true] s1 0 l (reach_of_run h1) hreq hl0 hl.1.1 hl.1.2 hl.2 (d7post cfg) s2 hr2).2.2
         omega
 
 /-- with the once, at quiescence every listener is unstarted, armed, or has moved on: none is stuck between the
@@ -278,13 +298,11 @@ theorem non_interrupting_partial (cfg : Cfg) (hc : cfg.once = true) (kinds : Lis
 theorem quiet_done_inactive (cfg : Cfg) (kinds : List Bool) (s : St) (hr : Reach cfg kinds s) (hq : quiet cfg s = true)
     (hd : s.req = .done) : s.hActive = false := by
   have g := reach_ginv hr
-  have hcp : s.clearPending = false := quiet_clear cfg s hq
-  cases ha : s.hActive with
-  | false => rfl
-  | true =>
-    rcases g.active ha with h | h
-    · rw [hd] at h; simp [Req.rank] at h
-    · rw [hcp] at h; cases h
+  have hcl : s.cleared = true := by
+    rcases quiet_clear cfg s hq hd with h | h
+    · exact h
+    · exact g.handed h (by rw [hd]; simp [Req.rank])
+  exact (g.clear hcl).2.1
 
 /-- gated: from a quiescent state in which the host has completed every run leaves the state as it is (events are
 not forwarded, nothing else is enabled) -/
@@ -527,6 +545,56 @@ theorem host_always_requested (cfg : Cfg) (he : cfg.early = false) (hg : cfg.gat
     have := ((reach_late he hg hr).first h).1
     rw [ht] at this; cases this
 
+/-! ## The hand-over of the answer -/
+
+/-- with `active := 0` BEFORE `out <- rsp`: once the token holds the answer (so that the normal flow can continue) the
+harness is inactive, on every schedule — not only at quiescence -/
+theorem handover_inactive (cfg : Cfg) (hrf : cfg.resetFirst = true) (kinds : List Bool) (s : St) (hr : Reach cfg kinds s)
+    (h : Req.forwarded.rank ≤ s.req.rank) : s.hActive = false := by
+  have g := reach_ginv hr
+  exact (g.clear (g.handed hrf (by simpa [Req.rank] using h))).2.1
+
+/-- … hence (with the gate) an event delivered from then on reaches no boundary event -/
+theorem handover_inert (cfg : Cfg) (hrf : cfg.resetFirst = true) (hg : cfg.gated = true) (kinds : List Bool) (s : St)
+    (hr : Reach cfg kinds s) (h : Req.forwarded.rank ≤ s.req.rank) (i : Nat) :
+    step cfg s (.deliver i) = some s ∨ step cfg s (.deliver i) = none := by
+  have ha := handover_inactive cfg hrf kinds s hr h
+  cases hl : s.ls[i]? with
+  | none => right; simp [step, hl]
+  | some l => left; simp [step, hl, hg, ha]
+
+def lateResetRun (cfg : Cfg) : List Label :=
+  .activate :: activation cfg ++ [.taskTake, .reqStart, .arm 0, .answer, .respond, .forward, .hostTake]
+
+def lateResetCheck (cfg : Cfg) : Bool :=
+  match run cfg (init [false]) (lateResetRun cfg) with
+  | some s => s.req == .done && s.normal == 1 && contsAt s 0 == 0 &&
+      (match run cfg s [.deliver 0, .catchTake 0, .transform 0, .move 0] with
+       | some s' => contsAt s' 0 == 1
+       | none => false)
+  | none => false
+
+theorem lateResetCheck_all : ∀ cfg : Cfg, cfg.resetFirst = false → lateResetCheck cfg = true := by
+  intro ⟨g, o, r, sh, e, rf⟩ h
+  cases g <;> cases o <;> cases r <;> cases sh <;> cases e <;> cases rf <;> first | decide | (simp at h)
+
+/-- with `active := 0` AFTER the hand-over: the host has completed (the token took the answer, the normal flow has
+continued) and an event delivered now still continues the exception flow -/
+theorem C10_counterexample_late_reset (cfg : Cfg) (h : cfg.resetFirst = false) :
+    ∃ s s' : St, Reach cfg [false] s ∧ s.req = .done ∧ s.normal = 1 ∧ contsAt s 0 = 0 ∧
+      run cfg s [.deliver 0, .catchTake 0, .transform 0, .move 0] = some s' ∧ contsAt s' 0 = 1 := by
+  have hc := lateResetCheck_all cfg h
+  unfold lateResetCheck at hc
+  cases h1 : run cfg (init [false]) (lateResetRun cfg) with
+  | none => simp [h1] at hc
+  | some s =>
+    simp only [h1, Bool.and_eq_true, beq_iff_eq] at hc
+    cases h2 : run cfg s [.deliver 0, .catchTake 0, .transform 0, .move 0] with
+    | none => simp [h2] at hc
+    | some s' =>
+      simp only [h2, beq_iff_eq] at hc
+      exact ⟨s, s', reach_of_run h1, hc.1.1.1, hc.1.1.2, hc.1.2, h2, hc.2⟩
+
 /-! ## Summary -/
 
 /-- exception flows never continue twice, on any schedule, for any facts -/
@@ -559,18 +627,18 @@ theorem C10_partial (cfg : Cfg) (ho : cfg.once = true) (hg : cfg.gated = true) :
 /-! ## Non-vacuity: the hypotheses of the implications above are met by concrete reachable states -/
 
 def exPre : St := (run Cfg.code (init [true]) (d7pre Cfg.code)).getD (init [])
-def exPost : St := (run Cfg.code exPre (.catchTake 0 :: d7post cfg)).getD (init [])
+def exPost : St := (run Cfg.code exPre (.catchTake 0 :: d7post Cfg.code)).getD (init [])
 
 /-- `interrupting_partial`, `boundary_interrupting`: a reachable state in which the host waits for its answer and an
 armed interrupting listener has an event in its inbox; the run continues to a quiescent state -/
 example : Reach Cfg.code [true] exPre ∧ exPre.req = .pending ∧
     exPre.ls[0]? = some { interrupting := true, phase := .armed, inbox := 1, got := 1 } ∧
-    run Cfg.code exPre (.catchTake 0 :: d7post cfg) = some exPost ∧ quiet Cfg.code exPost = true ∧
+    run Cfg.code exPre (.catchTake 0 :: d7post Cfg.code) = some exPost ∧ quiet Cfg.code exPost = true ∧
     contsAt exPost 0 = 1 ∧ exPost.normal = 1 :=
   ⟨reach_of_run (tr := d7pre Cfg.code) (by decide), by decide, by decide, by decide, by decide, by decide, by decide⟩
 
 def exOne : St := (run Cfg.code (init [false]) [.activate, .harnessActive, .harnessCall, .taskTake, .reqStart, .arm 0, .deliver 0,
-  .catchTake 0, .transform 0, .move 0, .answer, .respond, .forward, .hostTake, .clear, .decrement]).getD (init [])
+  .catchTake 0, .transform 0, .move 0, .answer, .respond, .clear, .forward, .hostTake, .decrement]).getD (init [])
 
 /-- `non_interrupting_partial` with nothing dropped: one event, one continuation, the normal flow after the answer,
 and (every listener fired) the instance can complete -/
@@ -578,7 +646,7 @@ example : Reach Cfg.code [false] exOne ∧ quiet Cfg.code exOne = true ∧
     exOne.ls[0]? = some { interrupting := false, phase := .moved, got := 1, conts := 1 } ∧
     exOne.normal = 1 ∧ canComplete Cfg.code exOne = true :=
   ⟨reach_of_run (tr := [.activate, .harnessActive, .harnessCall, .taskTake, .reqStart, .arm 0, .deliver 0, .catchTake 0,
-      .transform 0, .move 0, .answer, .respond, .forward, .hostTake, .clear, .decrement]) (by decide),
+      .transform 0, .move 0, .answer, .respond, .clear, .forward, .hostTake, .decrement]) (by decide),
    by decide, by decide, by decide, by decide⟩
 
 def exDone : St := (run Cfg.code (init [false]) (d8run Cfg.code)).getD (init [])
@@ -591,6 +659,6 @@ example : Reach Cfg.code [false] exDone ∧ quiet Cfg.code exDone = true ∧ exD
 
 /-- `exception_progress`, `answered_then_normal`: see the two examples above (quiescent, answered). The cancel in the
 D7 witness is REFUSED by the code's facts: -/
-example : ((run Cfg.code (init [true]) (d7pre Cfg.code ++ .catchTake 0 :: d7post cfg)).map (·.verdicts)) = some [false] := by decide
+example : ((run Cfg.code (init [true]) (d7pre Cfg.code ++ .catchTake 0 :: d7post Cfg.code)).map (·.verdicts)) = some [false] := by decide
 
 end Bpmn.Props.C10
